@@ -25,15 +25,12 @@ Proof.
            end.
 Qed.
 
-Lemma edge_ok_timer_src pin a k b : edge_ok pin a k b = true -> timer_tag a = true -> timer_tag b = true.
-Proof. intros H T. destruct a; try discriminate; destruct b; cbn [edge_ok] in H; try discriminate; reflexivity. Qed.
-
-(* the descent: unpinned schema, ordinary field, target not a timer object *)
+(* the descent: current schema, ordinary field *)
 Lemma edge_ok_desc a k b :
-  edge_ok false a k b = true -> is_conn k = false -> timer_tag a = false ->
+  edge_ok false a k b = true -> is_conn k = false ->
   trank b < trank a \/ (trank b = trank a /\ tdepth a < tdepth b).
 Proof.
-  intros H C T. destruct a; try discriminate; destruct b; cbn [edge_ok] in H; try discriminate;
+  intros H C. destruct a; destruct b; cbn [edge_ok] in H; try discriminate;
     cbn [trank tdepth]; try (left; lia).
   - right. apply andb_true_iff in H. destruct H as [_ H]. apply Nat.ltb_lt in H. lia.
   - destruct k; cbn in *; congruence.
@@ -193,7 +190,7 @@ Proof.
   rewrite run_release_done in H by lia. assumption.
 Qed.
 
-(* ---- nothing but timer objects survives once no handle is pending ---- *)
+(* ---- nothing survives once no handle is pending ---- *)
 Lemma has_pred s o ob : inv s [] -> nth_error (hp s) o = Some ob -> live ob = true ->
   exists p pb e, nth_error (hp s) p = Some pb /\ In e (strong pb) /\ et e = o.
 Proof.
@@ -212,39 +209,36 @@ Proof.
 Qed.
 
 Lemma no_survivor s : good false s [] ->
-  forall n d o ob, nth_error (hp s) o = Some ob -> live ob = true -> timer_tag (otag ob) = false ->
+  forall n d o ob, nth_error (hp s) o = Some ob -> live ob = true ->
     12 - trank (otag ob) = n -> tdepth (otag ob) = d -> False.
 Proof.
   intros [I T O]. induction n as [n IHn] using lt_wf_ind. induction d as [d IHd] using lt_wf_ind.
-  intros o ob E L Tm Hn Hd.
+  intros o ob E L Hn Hd.
   destruct (has_pred s o ob I E L) as (p & pb & e & Ep & Hin & Het).
   pose proof (has_edges_live _ _ _ _ _ I Ep Hin) as Lp.
   destruct (T _ _ _ Ep Hin) as (tb & Et & Ok). rewrite Het in Et. assert (tb = ob) by congruence. subst tb.
-  assert (Tp : timer_tag (otag pb) = false).
-  { destruct (timer_tag (otag pb)) eqn:Tp; [|reflexivity]. pose proof (edge_ok_timer_src _ _ _ _ Ok Tp). congruence. }
   destruct (is_conn (ek e)) eqn:C.
   - (* a connection edge: the gate [p] is listed by a live module context, which ranks above [o] *)
     pose proof (edge_ok_conn _ _ _ _ Ok C) as Hg.
     destruct (O _ _ _ Ep Hin C) as (c & oc & Ec & Ic & Hgc).
     apply in_map_iff in Hgc. destruct Hgc as (e' & He' & Hin').
     pose proof (has_edges_live _ _ _ _ _ I Ec Hin') as Lc.
-    assert (Tc : timer_tag (otag oc) = false) by (destruct (otag oc); try discriminate; reflexivity).
     assert (Rc : trank (otag oc) = 9) by (destruct (otag oc); try discriminate; reflexivity).
     assert (Ro : trank (otag ob) <= 4).
     { rewrite Hg in Ok. destruct (otag ob); cbn [edge_ok] in Ok; try discriminate; cbn; lia. }
-    eapply (IHn (12 - trank (otag oc))); [lia|exact Ec|exact Lc|exact Tc|reflexivity|reflexivity].
-  - destruct (edge_ok_desc _ _ _ Ok C Tp) as [Hr|[Hr Hdp]].
+    eapply (IHn (12 - trank (otag oc))); [lia|exact Ec|exact Lc|reflexivity|reflexivity].
+  - destruct (edge_ok_desc _ _ _ Ok C) as [Hr|[Hr Hdp]].
     + pose proof (trank_le (otag pb)).
-      eapply (IHn (12 - trank (otag pb))); [lia|exact Ep|exact Lp|exact Tp|reflexivity|reflexivity].
-    + eapply (IHd (tdepth (otag pb))); [lia|exact Ep|exact Lp|exact Tp|lia|reflexivity].
+      eapply (IHn (12 - trank (otag pb))); [lia|exact Ep|exact Lp|reflexivity|reflexivity].
+    + eapply (IHd (tdepth (otag pb))); [lia|exact Ep|exact Lp|lia|reflexivity].
 Qed.
 
 (* the main theorem *)
 Theorem all_freed s roots : good false s roots ->
-  forall o ob, nth_error (hp (release_all s roots)) o = Some ob -> live ob = true -> timer_tag (otag ob) = true.
+  forall o ob, nth_error (hp (release_all s roots)) o = Some ob -> live ob = false.
 Proof.
-  intros G o ob E L. pose proof (good_release_all _ _ _ G) as G'.
-  destruct (timer_tag (otag ob)) eqn:Tm; [reflexivity|exfalso].
+  intros G o ob E. pose proof (good_release_all _ _ _ G) as G'.
+  destruct (live ob) eqn:L; [exfalso|reflexivity].
   eapply (no_survivor _ G'); try eassumption; reflexivity.
 Qed.
 
@@ -275,16 +269,15 @@ Qed.
 Lemma release_all_tag s roots x : tag_of (hp (release_all s roots)) x = tag_of (hp s) x.
 Proof. apply run_tag. Qed.
 
-(* every object that is not a timer slot / timer queue is in the destructor log exactly once *)
+(* every object is in the destructor log exactly once *)
 Theorem freed_exactly_once s roots : good false s roots ->
-  forall o t, tag_of (hp s) o = Some t -> timer_tag t = false ->
-    cnt o (freed (release_all s roots)) = 1.
+  forall o, o < length (hp s) -> cnt o (freed (release_all s roots)) = 1.
 Proof.
-  intros G o t Ht Tm. pose proof (good_release_all _ _ _ G) as [I' _ _].
+  intros G o Ho. destruct (nth_lt_some _ _ Ho) as (ob0 & E0).
+  assert (Ht : tag_of (hp s) o = Some (otag ob0)) by (unfold tag_of; rewrite E0; reflexivity). pose proof (good_release_all _ _ _ G) as [I' _ _].
   rewrite <- (release_all_tag s roots) in Ht. unfold tag_of in Ht.
-  destruct (nth_error (hp (release_all s roots)) o) as [ob|] eqn:E; [|discriminate]. injection Ht as <-.
+  destruct (nth_error (hp (release_all s roots)) o) as [ob|] eqn:E; [|discriminate].
   assert (Hin : In o (freed (release_all s roots))).
-  { apply (i_freed _ _ I'). exists ob. split; [assumption|].
-    destruct (live ob) eqn:L; [|reflexivity]. pose proof (all_freed s roots G o ob E L). congruence. }
+  { apply (i_freed _ _ I'). exists ob. split; [assumption|]. exact (all_freed s roots G o ob E). }
   unfold cnt. apply (NoDup_count_occ' Nat.eq_dec); [apply (i_nodup _ _ I')|assumption].
 Qed.
